@@ -161,7 +161,7 @@ func runRestart(p rsCase) *outcome {
 		o.inconclusive = "set-up: " + err.Error()
 		return o
 	}
-	if err := mustOK(ctl.Do(append(append([]string{"SETCHAN", twin}, meta...), fargs...)...)); err != nil {
+	if err := mustOK(ctl.Do(append(append([]string{"SETCHAN", twin}, meta...), twinFenceArgs(p.Fence, key)...)...)); err != nil {
 		panic(fmt.Sprintf("SETCHAN: %v", err))
 	}
 	if err := mustOK(ctl.Do(append(append([]string{"SETHOOK", hook, ep.url()}, meta...), fargs...)...)); err != nil {
